@@ -92,6 +92,11 @@ func runOne(prop string, pd *propDef, seed uint64, idx int64, tier string, sc *S
 		o.Verdict = "ok"
 	}
 	o.Nontrivial = rd.Res.Switches > 0 && len(rd.Recs) > 0
+	if rd.Nontrivial != 0 {
+		o.Nontrivial = rd.Nontrivial > 0
+	}
+	o.Evals = rd.Evals
+	o.Extra = rd.Extra
 	if rd.Checked > 0 || rd.Inconclusive > 0 {
 		if o.Probes == nil {
 			o.Probes = map[string]int{}
